@@ -99,9 +99,13 @@ Proof.
   - apply linv_extend. destruct keep0 as [|k0 kr]; [intros x [<-|[]]; apply binv_empty|]. intros x Hx. apply H, I2, Hx.
 Qed.
 
-Lemma full_is_keep : gen_full_discard true = false.
+(* the answers as the agent sees them (these hold for the generated flags; they do not depend on the discard bit
+   that accompanies an rpc error) *)
+Lemma full_answer_not_ack r : is_ack (full_answer r) = false.
 Proof. reflexivity. Qed.
-Lemma insert_discard_is_ok ok : gen_insert_discard ok = ok.
+Lemma insert_answer_failed r : insert_answer false r = GvError r.
+Proof. reflexivity. Qed.
+Lemma insert_answer_ok r : insert_answer true r = GvAck r.
 Proof. reflexivity. Qed.
 
 Lemma tick_ready_inv rd : forall g room g' ev, ginv g -> linv rd -> tick_ready g rd room = (g', ev) ->
@@ -116,13 +120,13 @@ Proof.
     + simpl in H. destruct (tick_ready g rest []) as [g1 ev1] eqn:Et. inversion H; subst.
       destruct (IH _ _ _ _ G Lr Et) as [G1 N1]. split; [exact G1|].
       rewrite forallb_app, N1, andb_true_r. rewrite forallb_forall. intros e He. apply in_map_iff in He.
-      destruct He as (q & <- & _). rewrite ?full_is_keep; reflexivity.
+      destruct He as (q & <- & _). rewrite full_answer_not_ack; reflexivity.
     + eapply IH; [|exact Lr|exact H]. destruct G as (G1 & G2 & G3). split; [exact G1|]. split; [exact G2|].
       simpl. intros x Hx. apply in_app_or in Hx. destruct Hx as [Hx|[<-|[]]]; [apply G3; exact Hx|apply L; left; reflexivity].
     + simpl in H. destruct (tick_ready g rest room') as [g1 ev1] eqn:Et. inversion H; subst.
       destruct (IH _ _ _ _ G Lr Et) as [G1 N1]. split; [exact G1|].
       rewrite forallb_app, N1, andb_true_r. rewrite forallb_forall. intros e He. apply in_map_iff in He.
-      destruct He as (q & <- & _). rewrite ?full_is_keep; reflexivity.
+      destruct He as (q & <- & _). rewrite full_answer_not_ack; reflexivity.
 Qed.
 
 Lemma min_bucket_in l : forall best m, min_bucket l best = Some m -> In m l \/ best = Some m.
@@ -170,7 +174,7 @@ Qed.
 
 Lemma answers_ok ok (batch : list bucket) st :
   linv batch -> incl (flat_map b_merged batch) st ->
-  acks_ok st (flat_map (fun x => map (fun r => if gen_insert_discard ok then GvAck r else GvError r) (b_contrib x)) batch).
+  acks_ok st (flat_map (fun x => map (insert_answer ok) (b_contrib x)) batch).
 Proof.
   intros L Hi.
   assert (G : forall evs, (forall e, In e evs -> (exists r, e = GvAck r /\ In (r_key r) st) \/ (exists r, e = GvError r)) -> acks_ok st evs).
@@ -179,7 +183,7 @@ Proof.
     - split; [exact Hq|apply IH; intros e' He'; apply H; right; exact He'].
     - apply IH; intros e' He'; apply H; right; exact He'. }
   apply G. intros e He. apply in_flat_map_contrib in He. destruct He as (b & r & Hb & Hr & ->).
-  rewrite ?insert_discard_is_ok. destruct ok; [left|right; eauto]. exists r. split; [reflexivity|].
+  destruct ok; [rewrite insert_answer_ok; left|rewrite insert_answer_failed; right; eauto]. exists r. split; [reflexivity|].
   apply Hi. apply in_flat_map. exists b. split; [exact Hb|]. apply (L b Hb). exact Hr.
 Qed.
 
@@ -194,7 +198,7 @@ Qed.
 
 Lemma gstep_inv g o g' ev : ginv g -> gstep g o = (g', ev) -> ginv g' /\ forall st, acks_ok st ev.
 Proof.
-  intros G H. destruct G as (G1 & G2 & G3). destruct o as [r f d hw|now sw room|ok n hw|rid| |now sw rk]; simpl in H.
+  intros G H. destruct G as (G1 & G2 & G3). destruct o as [r f d hw|now sw room|ok n hw|rid| |now sw]; simpl in H.
   - (* GRecv *)
     unfold grecv in H.
     assert (T : forall e, is_ack e = false -> ginv g /\ forall st, acks_ok st [e]).
@@ -232,13 +236,13 @@ Proof.
         assert (Lb : linv (b :: hs)).
         { intros x [<-|Hx]; [apply G3; left; reflexivity|apply G2, I2, Hx]. }
         change (acks_ok st' (GvInsert ok (flat_map b_merged (b :: hs)) ::
-                 flat_map (fun x => map (fun r => if gen_insert_discard ok then GvAck r else GvError r) (b_contrib x)) (b :: hs))).
+                 flat_map (fun x => map (insert_answer ok) (b_contrib x)) (b :: hs))).
         destruct ok.
         -- change (acks_ok (flat_map b_merged (b :: hs) ++ st')
-                    (flat_map (fun x => map (fun r => if gen_insert_discard true then GvAck r else GvError r) (b_contrib x)) (b :: hs))).
+                    (flat_map (fun x => map (insert_answer true) (b_contrib x)) (b :: hs))).
            apply answers_ok; [exact Lb|]. intros x Hx. apply in_or_app. left. exact Hx.
         -- change (acks_ok st'
-                    (flat_map (fun x => map (fun r => if gen_insert_discard false then GvAck r else GvError r) (b_contrib x)) (b :: hs))).
+                    (flat_map (fun x => map (insert_answer false) (b_contrib x)) (b :: hs))).
            apply no_ack_ok. rewrite forallb_forall. intros e He. apply in_flat_map_contrib in He.
            destruct He as (b0 & r0 & _ & _ & ->). reflexivity.
   - (* GCancel *)
